@@ -1,8 +1,9 @@
 #!/bin/bash
+# usage: recheck_seeds.sh [glob, e.g. 'C*-9']
 # Re-runs every claimed quick check against every kept seed (scratch copies) and rewrites meta.json's detected_by.
 cd "$(dirname "$0")/.."
 props=$(python3 -c "import json; print(' '.join(c['property_id'] for c in json.load(open('MANIFEST.json'))['checks']))")
-ls -d seeded/*/ | xargs -P 5 -I{} bash -c '
+ls -d seeded/${1:-*}/ | xargs -P 5 -I{} bash -c '
   d={}; d=${d%/}
   out=$(MUT_LINES=6 mutants/run_mutant.sh $(realpath $d/patch.diff) quick '"$props"' 2>&1)
   det=$(echo "$out" | awk "/^VIOLATION/{split(\$2,a,\"=\"); p=a[2]} /^  rule/{r=\$2} /^  instance/{print p\":\"r\"/\"\$2}" | sort -u | tr "\n" "," | sed "s/,$//")
